@@ -6,12 +6,14 @@ def run(ctx: common.Ctx):
     tree_check.setup(ctx, 'C06')
     doc_checks.run_c06(ctx)
     doc_checks.run_c06_payee_grid(ctx)
+    doc_checks.run_c06_whole_field(ctx)
     tree_check.correspondence(ctx, 'C06')
 
 
 def search(ctx: common.Ctx):
     doc_checks.run_c06(ctx)
     doc_checks.run_c06_payee_grid(ctx)
+    doc_checks.run_c06_whole_field(ctx)
 
 
 def replay(ctx, path):
